@@ -134,7 +134,8 @@ func scenC01(w *vsim.World, spec *vsim.Spec) {
 	}
 	cur := -1
 	step := 0
-	disturbed := false
+	disturbed := false    // a fault of either kind was injected into the current request
+	corruptedMid := false // ... and it changed stored bytes behind keepstore's back (an EIO does not)
 	vsimfs.Director = func(w *vsim.World, s *vsimfs.Step) error {
 		if cur < 0 || s.Node != node.name {
 			return nil
@@ -145,6 +146,7 @@ func scenC01(w *vsim.World, spec *vsim.Spec) {
 			return nil
 		}
 		disturbed = true
+		corruptedMid = r.midKind != 1
 		if r.midKind == 1 {
 			w.Fault("eio-at-" + s.Op)
 			return syscall.EIO
@@ -175,7 +177,7 @@ func scenC01(w *vsim.World, spec *vsim.Spec) {
 			bi := r.blk
 			h := hashes[bi]
 			before := intactSomewhere(bi)
-			cur, step, disturbed = i, 0, false
+			cur, step, disturbed, corruptedMid = i, 0, false, false
 			tag := fmt.Sprintf("request %d", i)
 			switch r.kind {
 			case 0, 1:
@@ -258,7 +260,7 @@ func scenC01(w *vsim.World, spec *vsim.Spec) {
 					// copy WHILE this request ran (new corruption after keepstore's own check is not
 					// something an acknowledgement can vouch for)
 					g := node.do("GET", "/"+h, "usertoken", nil)
-					if disturbed {
+					if corruptedMid {
 						w.Probe("put-acked-while-disk-was-being-corrupted")
 					} else if g.code != 200 || !bytes.Equal(g.body, blocks[bi]) {
 						w.Violation("c01/acknowledged-put-not-retrievable", "%s: PUT %s was acknowledged but the following GET answered %d with %d bytes", tag, h, g.code, len(g.body))
